@@ -988,11 +988,36 @@ func (p *Prog) keyPrefixOf(fi *FuncInfo, e ast.Expr, bind map[types.Object]ast.E
 	}
 	switch x := e.(type) {
 	case *ast.Ident:
+		if o := objOf(info, x); o != nil {
+			if kv, known := keyLocals[o]; known {
+				return kv.pref, kv.whole, true
+			}
+		}
 		if o := objOf(info, x); o != nil && bind[o] != nil {
 			return p.keyPrefixOf(bindFi[o], bind[o], bind, bindFi, depth+1)
 		}
 		return "", false, true // an id: contributes nothing certain
 	case *ast.SelectorExpr:
+		// a field of a parameter that the call site binds to a literal: recordKey(model.File{}) - the zero record
+		// gives the bare prefix
+		if o := objOf(info, x.X); o != nil && bind[o] != nil {
+			if cl, isLit := ast.Unparen(bind[o]).(*ast.CompositeLit); isLit {
+				for _, el := range cl.Elts {
+					if kv, isKV := el.(*ast.KeyValueExpr); isKV {
+						if id, isId := kv.Key.(*ast.Ident); isId && id.Name == x.Sel.Name {
+							return p.keyPrefixOf(bindFi[o], kv.Value, bind, bindFi, depth+1)
+						}
+					} else {
+						return "", false, true // positional literal: not followed
+					}
+				}
+				if tv, has := info.Types[x]; has {
+					if bt, isB := tv.Type.Underlying().(*types.Basic); isB && bt.Info()&types.IsString != 0 {
+						return "", true, true
+					}
+				}
+			}
+		}
 		return "", false, true
 	case *ast.BinaryExpr:
 		if x.Op == token.ADD {
@@ -1033,6 +1058,67 @@ func (p *Prog) keyPrefixOf(fi *FuncInfo, e ast.Expr, bind map[types.Object]ast.E
 					return s[:i], false, true
 				}
 				return s, true, true
+			}
+		}
+		// make([]byte, 0, n): an empty key to append to
+		if id, isId := x.Fun.(*ast.Ident); isId && id.Name == "make" && len(x.Args) >= 2 {
+			if n, isC := constInt(info, x.Args[1]); isC && n == 0 {
+				return "", true, true
+			}
+		}
+		// a helper that builds the key step by step in one local: key := make(..); key = append(key, prefix...);
+		// key = append(key, id...); return key
+		if callee := p.staticCallee(fi.Pkg, x); callee != nil && callee.Pkg == fi.Pkg && callee.Decl.Body != nil && len(callee.Decl.Body.List) > 1 {
+			stmts := callee.Decl.Body.List
+			cinfo := callee.Pkg.TypesInfo
+			if rs, isRet := stmts[len(stmts)-1].(*ast.ReturnStmt); isRet && len(rs.Results) == 1 {
+				var v types.Object
+				if as0, isAs := stmts[0].(*ast.AssignStmt); isAs && len(as0.Lhs) == 1 {
+					v = objOf(cinfo, as0.Lhs[0])
+				}
+				if v != nil {
+					nb, nf := map[types.Object]ast.Expr{}, map[types.Object]*FuncInfo{}
+					for k, val := range bind {
+						nb[k], nf[k] = val, bindFi[k]
+					}
+					args := argExprs(x, callee)
+					for i, po := range paramObjs(callee) {
+						if po != nil && args[i] != nil {
+							nb[po], nf[po] = args[i], fi
+						}
+					}
+					straight := true
+					saved, had := keyLocals[v]
+					for _, st := range stmts[:len(stmts)-1] {
+						as, isAs := st.(*ast.AssignStmt)
+						if !isAs || len(as.Lhs) != 1 || len(as.Rhs) != 1 || objOf(cinfo, as.Lhs[0]) != v {
+							straight = false
+							break
+						}
+						pref, whole, ok := p.keyPrefixOf(callee, as.Rhs[0], nb, nf, depth+1)
+						if !ok {
+							straight = false
+							break
+						}
+						keyLocals[v] = keyLocal{pref, whole}
+					}
+					var res keyLocal
+					isKnown := false
+					if straight {
+						// what is returned: the local, or one more step on it (return append(key, id...))
+						if pref, whole, ok := p.keyPrefixOf(callee, rs.Results[0], nb, nf, depth+1); ok {
+							res, isKnown = keyLocal{pref, whole}, true
+						}
+					}
+					if had {
+						keyLocals[v] = saved
+					} else {
+						delete(keyLocals, v)
+					}
+					if straight && isKnown {
+						return res.pref, res.whole, true
+					}
+				}
 			}
 		}
 		if callee := p.staticCallee(fi.Pkg, x); callee != nil && callee.Pkg == fi.Pkg && callee.Decl.Body != nil && len(callee.Decl.Body.List) == 1 {
@@ -1110,3 +1196,12 @@ func c19KeysAtCallSites(p *Prog, r *Report) {
 		fmt.Sprintf("key prefixes %q and %q overlap: the version-record scan would read content records (or vice versa)", a, b))
 	r.Check(scanAt != nil && scanWhole && scan == a, "C19.c", kFileGetAll+"#scan-prefix", p.pos(scanAt), "GetAll scans exactly the version-record prefix", "GetAll does not scan exactly the version-record key space")
 }
+
+// keyLocals: the prefix computed so far for the local of a key-building helper that is being read statement by
+// statement (see keyPrefixOf).
+type keyLocal struct {
+	pref  string
+	whole bool
+}
+
+var keyLocals = map[types.Object]keyLocal{}
